@@ -408,6 +408,9 @@ class Prover:
                 return self.ascii_run(args[0], s)
             if nm in ("min",) and len(args) == 2:
                 return self.bd(s, args[0], bb, assume, depth + 1) and self.bd(s, args[1], bb, assume, depth + 1)
+            if nm == "map_or" and len(args) == 3:
+                alt = self._closure_value(args[2])
+                return alt is not None and self.bd(s, args[1], bb, assume, depth + 1) and self.bd(s, alt, bb, assume, depth + 1)
             if nm in ("unwrap_or", "unwrap_or_else", "unwrap_or_default") and args:
                 inner = args[0]
                 ok_inner = self.bd(s, ("some", inner), bb, assume, depth + 1)
@@ -767,12 +770,35 @@ class Prover:
                 return x[2][1]
         return None
 
+    def _closure_value(self, cl):
+        """the value a closure returns, as an expression over the creating body's variables (single return expression only)"""
+        if cl is None or cl[0] != "closure" or self.prog is None:
+            return None
+        cb = self.prog.bodies.get(cl[1])
+        if cb is None or cb.parent != self.b.key:
+            return None
+        CS = Sym(cb, self.prog)
+        ds = [d for d in cb.defs().get(0, [])]
+        if len(ds) != 1:
+            return None
+        d = ds[0]
+        if d[0] == "assign":
+            return _unpvar(CS.rvalue(d[3]))
+        if d[0] == "call":
+            c = d[2]
+            return _unpvar(("call", c.name() or "?", c.pretty or "", tuple(CS.operand(a) for a in c.args), c.bb))
+        return None
+
     def le(self, a, b, bb):
         """a <= b"""
         if a is None or a == ("int", 0):
             return True
         if strip(a) == strip(b):
             return True
+        if b[0] == "call" and b[1] == "map_or" and len(b[3]) == 3:
+            alt = self._closure_value(b[3][2])
+            if alt is not None and self.le(a, b[3][1], bb) and self.le(a, alt, bb):
+                return True
         if a[0] == "int" and b[0] == "int":
             return a[1] <= b[1]
         if b[0] == "op" and b[1] == "Add" and (strip(b[2]) == strip(a) or strip(b[3]) == strip(a)):
